@@ -402,6 +402,15 @@ def gen(rng: random.Random, h5rec: Dict[str, Any], stage: int, job: Dict[str, An
                      weights=job.get("data_weights") or {"copy": 3.5, "move": 3, "delete": 3, "set_attr": 1.5, "del_attr": 0.7},
                      allow_copy_into_self=False, attr_keys=job.get("attr_keys"))
     a.update({k: e[k] for k in e if k in a or k in ("how",)})
+    if a["op"] in ("copy", "move") and rng.random() < job.get("restructure_groups_with_meta", 0.0):
+        # the source is a group that contains a dataset carrying metadata (the metadata travels along)
+        srcs = [n["p"] for n in tree if n["k"] == "g" and n["p"] and
+                any(m["isds"] and m["node"][: len(n["p"])] == n["p"] and len(m["node"]) > len(n["p"]) for m in meta)]
+        if srcs:
+            src = rng.choice(srcs)
+            q = [rng.choice(h5lib.ABSTRACT_KEYS) for _ in range(rng.randint(1, 2))]
+            if q[: len(src)] != src and not any(n["p"] == q for n in tree):
+                a["p"], a["q"] = src, q     # (never into the source's own subtree: excluded, see H5Tree)
     if a["op"] == "copy":
         a["without_meta"] = rng.random() < 0.3
     return a
